@@ -736,6 +736,7 @@ func search(e *env, seed uint64, n int, bins string) {
 	searchSinf(e, r, n/10+3)
 	searchMulti(e, r, n/2)
 	searchEntry(r, n/2)
+	searchBaseOffset(e, r, n/4+6)
 	if bins != "" {
 		searchBins(e, r, n/10+1, bins)
 	}
